@@ -101,7 +101,8 @@ func genValue(kind string, sel int64) *mrec {
 	case "bool":
 		r.Bo = sel%2 == 1
 	case "bytes":
-		r.B = [][]byte{{}, {0}, {1, 2, 3}, bytes.Repeat([]byte{0xab}, 200)}[sel%4]
+		// (the last one is a msgpack body {"n":1} behind the two byte marker: the record PatchTreasures works on)
+		r.B = [][]byte{{}, {0}, {1, 2, 3}, bytes.Repeat([]byte{0xab}, 200), {0xC7, 0x00, 0x81, 0xa1, 'n', 0x01}, {0xC7, 0x00, 0x81, 0xa1, 'n', 0x01}}[sel%6]
 	case "slice":
 		r.Slice = [][]uint32{{}, {0}, {1, 2, 3}, {7, 7, 9}, {4294967295}}[sel%5]
 		// a uint32 set: duplicates collapse, order of first appearance
